@@ -168,13 +168,16 @@ Given(o, f) ==
 MostRecent(sh, o) == [f \in Fields |-> IF f \in Named(o) THEN Given(o, f) ELSE sh[f]]
 
 \* ---- classes of states (part of a witness signature) ----------------------
-NearBound(x) == AbsV(x - MinDim) <= GetTol \/ AbsV(x - MaxDim) <= GetTol
 SizeClass(s) ==
   IF s.n \in StdNames THEN (IF s.w = StdW(s.n) /\ s.h = StdH(s.n) THEN "std" ELSE "near")
-  ELSE IF Recognise(s.h, s.w) # "Custom" THEN "transposed"
-  ELSE IF NearBound(s.w) \/ NearBound(s.h) THEN "edge"
+  ELSE IF Recognise(s.h, s.w) # "Custom" THEN "transposed"   \* a predefined size given the other way round
   ELSE "custom"
-Class(s) == SizeClass(s) \o "/" \o (IF s.or \in Orients THEN s.or ELSE "other")
+OrientClass(s) == IF s.or \in Orients THEN s.or ELSE "other"
+\* for a wrong return value the position of a custom size relative to the documented range matters
+AtMin(s) == s.n = "Custom" /\ (AbsV(s.w - MinDim) <= GetTol \/ AbsV(s.h - MinDim) <= GetTol)
+AtMax(s) == s.n = "Custom" /\ (AbsV(s.w - MaxDim) <= GetTol \/ AbsV(s.h - MaxDim) <= GetTol)
+SizeClassFor(f, s) == IF f = "ret" /\ AtMin(s) THEN "custom@min" ELSE IF f = "ret" /\ AtMax(s) THEN "custom@max"
+                      ELSE SizeClass(s)
 OpSig(o) == IF ArgClass(o) = "valid" THEN o.op ELSE o.op \o ":" \o ArgClass(o)
 
 \* ---- views of the implementation and their comparison with a state --------
